@@ -32,6 +32,8 @@ CFG = """CONSTANTS
   QDocMaint = %(qdoc)s
   QTxBypass = %(qtx)s
   QRefCount = %(qref)s
+  QTxReadGate = %(qgate)s
+  FlowPhased = %(phased)s
   EmitHist = %(emit)s
 SPECIFICATION %(spec)s
 INVARIANTS %(invs)s
@@ -40,10 +42,112 @@ CHECK_DEADLOCK FALSE
 """
 
 
-def cfg(mode, nsess=2, maxsteps=100, q=(False, False, False), emit=False, spec="Spec", invs=INVS, view="VIEW View"):
+def cfg(mode, nsess=2, maxsteps=100, q=(False, False, False), emit=False, spec="Spec", invs=INVS, view="VIEW View", qgate=False, phased=False):
     b = lambda x: "TRUE" if x else "FALSE"
     return CFG % dict(nsess=nsess, maxsteps=maxsteps, mode=mode, qdoc=b(q[0]), qtx=b(q[1]), qref=b(q[2]), emit=b(emit),
-                      spec=spec, invs=invs, view=view)
+                      spec=spec, invs=invs, view=view, qgate=b(qgate), phased=b(phased))
+
+
+FLOW_INVS = "TypeOK WriteNeedsRW DataNeedsR AdminNeedsAdmin InvalidSessionRefused SystemDbReadOnly AuthGrant"
+
+
+def tlc_flows(chk, thorough):
+    """multi-step flows of a user with permissions on two databases: exhaustive phased family (open, newtx, switch |
+    re-permission | deactivate | txexec, txexec | switch, commit, call) for every permission pair, simulated free flows,
+    the code model of the binding (must satisfy the policy) and the same model with NewTx(ReadWrite) gated by the read
+    permission only (must NOT: shows that the model and the invariants have teeth for this class)"""
+    out = {}
+    out["phased"] = vlib.run_tlc("Auth", "flow.cfg", workers=4, timeout=900, tag="C18flow",
+                                 files=[("flow.cfg", cfg("flow", nsess=1, maxsteps=6, spec="FlowSpec", invs="TypeOK EmitFlow", view="", phased=True))])
+    vlib.tlc_must_pass(out["phased"], "Auth flows (phased)")
+    out["sim"] = vlib.run_tlc("Auth", "flow.cfg", workers=1, timeout=600, tag="C18flow",
+                              files=[("flow.cfg", cfg("flow", nsess=1, maxsteps=6, spec="FlowSpec", invs="TypeOK EmitFlow", view=""))],
+                              extra=["-simulate", "num=%d" % (400 if thorough else 60), "-depth", "8", "-seed", str(chk.seed)])
+    if out["sim"].error or out["sim"].violation:
+        raise MachineryFault("Auth flow simulation: %s %s" % (out["sim"].error, out["sim"].violation))
+    out["design"] = vlib.run_tlc("Auth", "flow.cfg", workers=2, timeout=900, tag="C18flow",
+                                 files=[("flow.cfg", cfg("flowcode", nsess=1, maxsteps=1000, spec="FlowSpec", invs=FLOW_INVS, view="VIEW FlowView"))])
+    vlib.tlc_must_pass(out["design"], "Auth flow code model (transaction bound at NewTx, privileges checked on the selected database)")
+    out["gate"] = vlib.run_tlc("Auth", "flow.cfg", workers=2, timeout=900, tag="C18flow",
+                               files=[("flow.cfg", cfg("flowcode", nsess=1, maxsteps=1000, spec="FlowSpec", invs=FLOW_INVS, view="VIEW FlowView", qgate=True))])
+    if out["gate"].error:
+        raise MachineryFault("Auth flow code model with the read gate: " + out["gate"].error)
+    if out["gate"].violation != "WriteNeedsRW":
+        raise MachineryFault("the flow code model with NewTx(ReadWrite) gated by the read permission does not violate WriteNeedsRW (%s): "
+                             "the model has no teeth for bound-here-checked-there flows" % out["gate"].violation)
+    return out
+
+
+def launch_flows(chk, fl, ex, futures, binp, wd, rng, thorough):
+    phased = vlib.printed_json(fl["phased"].out)
+    sims = vlib.printed_json(fl["sim"].out)
+    chk.add_tlc(fl["phased"], "Auth flows, phased family for every permission pair (%d flows)" % len(phased))
+    chk.add_tlc(fl["sim"], "Auth flows, simulation (%d flows)" % len(sims))
+    chk.add_tlc(fl["design"], "Auth flow code model (binding at NewTx, privileges on the selected database): satisfies the policy")
+    chk.add_tlc(fl["gate"], "Auth flow code model with NewTx(ReadWrite) gated by the read permission: counterexample %s" % fl["gate"].violation)
+    if len(phased) < 3000:
+        raise MachineryFault("only %d phased flows" % len(phased))
+    for f in phased:
+        f["origin"] = "tlc-flow-phased"
+    uniq = {}
+    for f in sims:
+        f["origin"] = "tlc-flow-simulation"
+        uniq[json.dumps(f["hist"], sort_keys=True)] = f
+    sims = [uniq[k] for k in sorted(uniq)]
+    # the counterexample of the broken gate, as a flow of the policy model (which carries the allowed effects per step)
+    st = vlib.error_trace_last_state(fl["gate"].out)
+    if not st or "hist" not in st:
+        raise MachineryFault("cannot parse the counterexample of the flow code model")
+    ops = [(h["op"], h["db"], h["a"]) for h in st["hist"]]
+    perms = (st["hist"][0]["pcur"], st["hist"][0]["pcuro"])
+    cex = [f for f in phased if (f["hist"][0]["pcur"], f["hist"][0]["pcuro"]) == perms and [(h["op"], h["db"], h["a"]) for h in f["hist"][:len(ops)]] == ops]
+    if not cex:
+        raise MachineryFault("the counterexample %r %r of the flow code model is not among the phased flows" % (perms, ops))
+    for f in cex:
+        f["origin"] = "tlc-counterexample:QTxReadGate"
+    # sample: per permission pair the flows with a database switch inside the transaction first
+    by_pair = {}
+    for f in phased:
+        by_pair.setdefault(pair_of(f), []).append(f)
+    chosen = list(cex[:2])
+    per_switch, per_other = (10**6, 10**6) if thorough else (8, 4)
+    for pr in sorted(by_pair):
+        fs = by_pair[pr]
+        rng.shuffle(fs)
+        sw = [f for f in fs if has_switch(f)]
+        ot = [f for f in fs if not has_switch(f)]
+        chosen += sw[:per_switch] + ot[:per_other]
+    rng.shuffle(sims)
+    chosen += sims[:(2000 if thorough else 40)]
+    if thorough and len(chosen) > 3600:
+        keep = [f for f in chosen if has_switch(f)]
+        rest = [f for f in chosen if not has_switch(f)]
+        chosen = keep[:2400] + rest[:1200]
+    chk.cov["flows"] = {"phased": len(phased), "simulated_distinct": len(sims), "replayed": len(chosen),
+                        "replayed_with_switch_inside_tx": sum(1 for f in chosen if has_switch(f)), "pairs": sorted(by_pair)}
+    nproc = 4 if thorough else 2
+    for i in range(nproc):
+        d = os.path.join(wd, "srv_flow%d" % i)
+        os.makedirs(d)
+        part = os.path.join(wd, "flows_%d.json" % i)
+        json.dump(chosen[i::nproc], open(part, "w"))
+        a = ["-mode", "flow", "-flows", part, "-trace", os.path.join(wd, "trace_flow%d.ndjson" % i), "-dir", d, "-seed", str(chk.seed)]
+        futures.append(("flow%d" % i, ex.submit(run_harness, binp, a, wd, "flow%d" % i)))
+
+
+def has_switch(f):
+    """a database switch between NewTx and TxSQLExec / Commit"""
+    seen_newtx = False
+    for e in f["hist"]:
+        if e["op"] == "newtx":
+            seen_newtx = True
+        elif e["op"] == "use" and seen_newtx:
+            return True
+    return False
+
+
+def pair_of(f):
+    return f["hist"][0]["pcur"] + "/" + f["hist"][0]["pcuro"]
 
 
 QUIRKS = [("QDocMaint", (True, False, False), "C18_DocMaintFixed"),
@@ -141,6 +245,7 @@ def run(chk, args):
     f_pol = ex.submit(tlc_policy, chk, wd, nsess)
     f_code = ex.submit(tlc_code, chk, nsess)
     f_sim = ex.submit(tlc_simulate, chk, 600 if thorough else 120)
+    f_flow = None if selftest else ex.submit(tlc_flows, chk, thorough)
     pol, rows = f_pol.result()
     chk.add_tlc(pol, "Auth policy NSess=%d (exhaustive, matrix of %d rows)" % (nsess, len(rows)))
     permitted = sum(1 for r in rows if r["permitted"])
@@ -221,6 +326,8 @@ def run(chk, args):
             json.dump(hists[i::nh], open(part, "w"))
             a = ["-mode", "hist", "-policy", policy_path, "-hist", part, "-trace", os.path.join(wd, "trace_hist%d.ndjson" % i), "-dir", d, "-seed", str(chk.seed)]
             futures.append(("hist%d" % i, ex.submit(run_harness, binp, a, wd, "hist%d" % i)))
+    if not selftest:
+        launch_flows(chk, f_flow.result(), ex, futures, binp, wd, rng, thorough)
     results = [(name, f.result()) for name, f in futures]
     ex.shutdown()
 
@@ -263,6 +370,17 @@ def run(chk, args):
                   "cells:userDeactivated", "cells:permissionChanged", "cells:loggedOut", "cells:none", "hist-probes", "hist-probes-accepted"]:
             if c.get(k, 0) == 0:
                 raise MachineryFault("non-vacuity: counter %s is 0" % k)
+        # flows: for every permission pair that can select both databases, transactions were opened, the database
+        # was switched before TxSQLExec, and commits after a switch went through
+        sw = {k.split(":")[1]: v for k, v in c.items() if k.startswith("flow-switch-between-newtx-and-txexec:")}
+        chk.cov["flows"]["switch_between_newtx_and_txexec_by_pair"] = sw
+        need = ["%s/%s" % (a, b) for a in ("R", "RW", "Admin") for b in ("R", "RW", "Admin")] + ["SysAdmin/SysAdmin"]
+        missing = [p for p in need if sw.get(p, 0) == 0]
+        if missing:
+            raise MachineryFault("non-vacuity: no flow with a database switch between NewTx and TxSQLExec for the permission pairs %s" % missing)
+        for k in ["flow-commit-ok", "flow-commit-ok-after-switch", "flow-newtx-ok:rw", "flow-newtx-ok:ro", "flow-newtx-refused:rw"]:
+            if c.get(k, 0) == 0:
+                raise MachineryFault("non-vacuity: counter %s is 0" % k)
         unexercised = [k[len("ok-rpc:"):] for k in []]
         okr = {k[len("ok-rpc:"):] for k in c if k.startswith("ok-rpc:")}
         chk.cov["rpc_rows_with_a_successful_call"] = len(okr)
@@ -277,7 +395,8 @@ def run(chk, args):
         "data returned = a sentinel (key, value, SQL value, document field, password hash) of a database appears in a response message",
         "token expiry (granularity of minutes) is not driven; a token is an identity claim: after a new credential login the server may honour the "
         "user's older tokens again with the CURRENT permissions (Auth.tla LoginEffect), and Logout ends the login only when the last client logs out",
-        "one test user per role with a permission on one database; histories up to NSess=%d slots" % nsess]
+        "matrix and histories: one test user per role with a permission on one database, histories up to NSess=%d slots; flows: one user per "
+        "permission pair on two databases, one session, one interactive transaction, 6 steps" % nsess]
 
 
 def run_selftest(chk, text, nlines, tlc_bad):
